@@ -1075,6 +1075,7 @@ class SMTPClient(basic.LineReceiver, policies.TimeoutMixin):
             self.sendLine(b"RCPT TO:" + quoteaddr(self.lastAddress))
 
     def smtpState_data(self, code, resp):
+        self._atLineStart = True
         s = basic.FileSender()
         d = s.beginFileTransfer(self.getMailData(), self.transport, self.transformChunk)
 
@@ -1100,6 +1101,8 @@ class SMTPClient(basic.LineReceiver, policies.TimeoutMixin):
     ##
     ## Helpers for FileSender
     ##
+    _atLineStart = True
+
     def transformChunk(self, chunk):
         """
         Perform the necessary local to network newline conversion and escape
@@ -1109,7 +1112,14 @@ class SMTPClient(basic.LineReceiver, policies.TimeoutMixin):
         being made sending the message body, the client will not time out.
         """
         self.resetTimeout()
-        return chunk.replace(b"\n", b"\r\n").replace(b"\r\n.", b"\r\n..")
+        transformed = chunk.replace(b"\n", b"\r\n").replace(b"\r\n.", b"\r\n..")
+        if self._atLineStart and transformed.startswith(b"."):
+            # A period at the very beginning of the message, or right after
+            # a line ending that fell at the end of the previous chunk.
+            transformed = b"." + transformed
+        if chunk:
+            self._atLineStart = chunk.endswith(b"\n")
+        return transformed
 
     def finishedFileTransfer(self, lastsent):
         if lastsent != b"\n":
